@@ -36,9 +36,6 @@ theorem sp_head_not_snake (n : Nat) (r : Bytes) (hn : 0 < n) :
   | zero => omega
   | succ n => rw [sp_succ] at hc; simp at hc; subst hc; decide
 
-theorem sp_all_space (n : Nat) : (sp n).all isSpace = true := by
-  simp [sp, List.all_replicate]; right; decide
-
 /-- the text of one key line behind the column layout -/
 def keylineText (key : Bytes) (l : Loc) (more : Bytes) : Bytes :=
   sp 5 ++ (key ++ (sp (16 - key.length) ++ (bs l.print ++ 10 :: more)))
